@@ -129,6 +129,14 @@ def segN (cplx : Bool) (lsub : Array Nat) (g : Seg) (lusup dense tempv : Array K
   let d2 := segScatterL lsub (isub + g.segsze) g.nrow y d1
   (d2, zeroPrefix (g.segsze + g.nrow) tv2)
 
+/-- the four-way dispatch on `segsze` (dcolumn_bmod.c:152, 163, 169, 198); returns (dense, tempv) -/
+def segUpdate (cplx : Bool) (lsub : Array Nat) (g : Seg) (lusup dense tempv : Array K) : Array K × Array K :=
+  if g.segsze = 1 then (seg1 lsub g lusup dense, tempv)
+  else if g.segsze ≤ 3 then
+    if g.segsze = 2 then (seg2 lsub g lusup dense, tempv)
+    else (seg3 cplx lsub g lusup dense, tempv)
+  else segN cplx lsub g lusup dense tempv
+
 /-- one iteration of `for (ksub = 0; ksub < nseg; ksub++)` for the representative `krep` -/
 def colSegment (cplx segOps : Bool) (jcol fpanelc : Nat) (xsup supno lsub xlsub repfnz : Array Nat) (krep : Nat)
     (st : SnodeSt K) : SnodeSt K :=
@@ -136,15 +144,10 @@ def colSegment (cplx segOps : Bool) (jcol fpanelc : Nat) (xsup supno lsub xlsub 
     let g := segGeom fpanelc xsup supno xlsub st.xlusup repfnz krep
     let kT := if segOps then (if cplx then 4 else 1) else 0
     let kG := if segOps then (if cplx then 8 else 2) else 0
-    let st := { st with opsTrsv := st.opsTrsv + kT * (g.segsze * (g.segsze - 1)),
-                        opsGemv := st.opsGemv + kG * (g.nrow * g.segsze) }
-    if g.segsze = 1 then { st with dense := seg1 lsub g st.lusup st.dense }
-    else if g.segsze ≤ 3 then
-      if g.segsze = 2 then { st with dense := seg2 lsub g st.lusup st.dense }
-      else { st with dense := seg3 cplx lsub g st.lusup st.dense }
-    else
-      let p := segN cplx lsub g st.lusup st.dense st.tempv
-      { st with dense := p.1, tempv := p.2 }
+    let p := segUpdate cplx lsub g st.lusup st.dense st.tempv
+    { st with dense := p.1, tempv := p.2,
+              opsTrsv := st.opsTrsv + kT * (g.segsze * (g.segsze - 1)),
+              opsGemv := st.opsGemv + kG * (g.nrow * g.segsze) }
   else st
 
 /-- "Process the supernodal portion of L\U[*,j]" (dcolumn_bmod.c:266-351).  For `fpanelc ≤ fsupc`
